@@ -257,11 +257,19 @@ def make_estimator(dreye, s, w=None, with_bounds=True):
     import zlib
     dx = [1.0, 0.5, 2.0, 0.25][zlib.crc32(np.ascontiguousarray(np.asarray(s["A"], float)).tobytes()) % 4]
     sources = sources / dx
-    est = dreye.ReceptorEstimator(filters, domain=dx, **kw)
-    # the bounds are hidden from c.call inside the system dict: give them the same value-hashed int64 container here
+    # containers: the small arrays of a system (K, baseline, w, bounds) are array-likes; one system in four (hash of A) gets
+    # them as plain (nested) Python lists, otherwise integer-valued bounds get the value-hashed int64 container of c.call
     from .core import as_int_container
-    est.register_system(sources, lb=as_int_container(s["lb"]) if with_bounds else None,
-                        ub=as_int_container(s["ub"]) if with_bounds else None)
+    h = zlib.crc32(np.ascontiguousarray(np.asarray(s["A"], float)).tobytes()[::-1])
+    as_list = (h % 4 == 1)
+
+    def box(v):
+        if isinstance(v, np.ndarray) and v.ndim >= 1 and np.all(np.isfinite(v)):
+            return v.tolist() if as_list else as_int_container(v)
+        return v
+    kw = {k: box(v) for k, v in kw.items()}
+    est = dreye.ReceptorEstimator(filters, domain=dx, **kw)
+    est.register_system(sources, lb=box(s["lb"]) if with_bounds else None, ub=box(s["ub"]) if with_bounds else None)
     return est
 
 
